@@ -863,6 +863,11 @@ func (m *pkMon) invariants(s *pkSnap) {
 		if p.Pending != o.Pending {
 			m.violate("C05/order_packet_bijection/order-status-differs-from-packet-status", o.Name)
 		}
+		if _, fwd := m.h.fwdOf[[2]uint64{uint64(p.Chan), p.Seq}]; fwd && p.Type != "R" {
+			// a packet the packet-forward middleware sent is settled towards the origin chain: an order for it
+			// could only lose the fulfiller's funds (fix_pfm_forwarded_order)
+			m.violate("C05/finalize_pays_fulfiller/order-created-for-forwarded-packet", o.Name)
+		}
 		if o.TrackingKey != p.Key {
 			m.violate("C05/order_packet_bijection/tracking-key-is-not-the-packet-key", o.Name)
 		}
